@@ -81,6 +81,23 @@ class Kernel:
         """Linear consumption of part = np.where(map == label, spectrum, 0)."""
         part_name = None
         part_stmt = None
+        # loop-local temporaries holding the label mask:  inpart = map == k + 1;  part = np.where(inpart, spectrum, 0.0)
+        counts = {}
+        for s in ast.walk(self.loop):
+            if isinstance(s, (ast.Assign, ast.AugAssign)):
+                for t in (s.targets if isinstance(s, ast.Assign) else [s.target]):
+                    if isinstance(t, ast.Name):
+                        counts[t.id] = counts.get(t.id, 0) + 1
+        tmps = {s.targets[0].id: s.value for s in self.loop.body if isinstance(s, ast.Assign) and len(s.targets) == 1
+                and isinstance(s.targets[0], ast.Name) and counts.get(s.targets[0].id) == 1 and isinstance(s.value, ast.Compare)}
+
+        _w0 = globals()["_where"]
+
+        def _where(e):
+            w_ = _w0(e)
+            if w_ is not None and isinstance(w_[0], ast.Name) and w_[0].id in tmps:
+                return [tmps[w_[0].id], w_[1], w_[2]]
+            return w_
         for s in self.loop.body:
             tgt, val = None, None
             if isinstance(s, ast.Assign) and len(s.targets) == 1 and isinstance(s.targets[0], ast.Name):
@@ -238,6 +255,11 @@ class Kernel:
                     hs_call = keyexpr.operand if neg else keyexpr
                     if not (isinstance(hs_call, ast.Call) and call_name(hs_call).endswith("npstats.hs")):
                         self.fail("R-C03-3", s, "swells must be ordered by the library's array-level Hs (npstats.hs)")
+                    elif [k for k in hs_call.keywords if not (k.arg == "tail" and isinstance(k.value, ast.Constant) and k.value.value is True)] \
+                            or len(hs_call.args) > 3:
+                        self.fail("R-C03-3", s, f"the sort key {unparse(hs_call)[:80]} is not the library's array-level Hs of the partition as returned "
+                                                "(non-default options such as tail=False give another height, so the returned swells are not in "
+                                                "non-increasing order of their Hs)")
                     elif not neg and not (kwarg(n, "kind") is None and False):
                         self.fail("R-C03-3", s, "argsort of +Hs orders the swells by INCREASING height; the key must be negated "
                                                 "(or the order reversed)")
@@ -487,6 +509,7 @@ class Kernel:
         if self.name == "np_ptm3":
             return
         found = False
+        failed_candidate = False
         for s in self.loop.body:
             if isinstance(s, ast.Assign) and isinstance(s.value, ast.BinOp) and isinstance(s.value.op, ast.Div):
                 num, den = unparse(s.value.left).replace(" ", ""), unparse(s.value.right).replace(" ", "")
@@ -501,8 +524,10 @@ class Kernel:
                     self.wsfrac, self.wsmask = s.targets[0].id, m
                     self.ok("R-C03-5", s, unparse(s)[:80], "wind-sea fraction = energy under the wind-sea mask / energy of the part")
                 else:
-                    self.fail("R-C03-5", s, "the wind-sea fraction must be (energy of the part under the wind-sea mask) / (energy of the part)")
-        if not found and not self.hp:
+                    failed_candidate = True
+                    self.fail("R-C03-5", s, "the wind-sea fraction must be (energy of the part under the wind-sea mask) / (energy of the part): the "
+                                            f"returned partition is '{p}', so a fraction taken from any other array classifies a different spectrum")
+        if not found and not self.hp and not failed_candidate:
             raise AnalysisError(f"{self.name}: wsfrac not found")
         for s in self.loop.body:
             if isinstance(s, ast.If) and found and self.wsfrac in unparse(s.test):
